@@ -14,6 +14,8 @@ META = {
     "not_decided": "that parent and child are functional for every instant at which fork() happens",
 }
 
+META["explanation"] += " " + "Also: the hash table's fork hooks are invoked on every returning path of the three call_rcu fork handlers unless none is registered, the nesting counter pairs up, and bp's saved signal mask is accessed only under both fork locks."
+
 
 def rule_handoff(ctx, rep):
     for fl in ALL:
